@@ -110,7 +110,7 @@ PENDING = {
 
 # additions of the later build phase, appended to the level text of the checks they concern
 TREND = " Also long one-sided trend streams with a zig-zag (up to 3 000 bars quick / 30 000 thorough) that drive run, peak and bars-since counters far from their initial values."
-FUZZ = " Thorough tier adds a libFuzzer + AddressSanitizer campaign (250 000 executions) of the indicator_program target (any indicator, configuration valid by construction, lattice candle stream of up to 2 000 bars) with this property's oracle inside the target; its committed corpus is replayed in both tiers."
+FUZZ = " Thorough tier adds a libFuzzer + AddressSanitizer campaign (40 000 executions of up to 2 000 candles each) of the indicator_program target (any indicator, configuration valid by construction, lattice candle stream of up to 2 000 bars) with this property's oracle inside the target; its committed corpus is replayed in both tiers."
 for k in ("C05", "C06", "C10", "C12", "C13"):
     CHECKS[k]["text"] += TREND
 for k in ("C05", "C06", "C09", "C10", "C11", "C12", "C13"):
